@@ -79,6 +79,8 @@ type c07ProbeRes struct {
 	Hits    []string `json:"hits"` // regex patterns matching the normalised name (Go regexp, independent of the matcher)
 }
 type c07Result struct {
+	SplitErr string        `json:"split_err,omitempty"` // NewNormalizedRequestRoutingProgram without optimizers
+	Split    [4][]int      `json:"split"`               // indices (into the written request list) of program.Rules, SubscriptionRules, NodeRules, SubNodeRules
 	NewErr   string        `json:"new_err,omitempty"`
 	Panic    string        `json:"panic,omitempty"`
 	ReqDump  *c07Dump      `json:"req_dump"`
@@ -135,7 +137,13 @@ func c07DumpReq(log *logrus.Logger, cs *c07Case, n2id map[string]uint8) (d *c07D
 			d.Err = fmt.Sprintf("PANIC: %v", r)
 		}
 	}()
-	b, err := NewRequestMatcherBuilder(log, c07Rules(cs.Req.Rules), n2id, cs.Req.Fallback)
+	// the un-optimized path with the split: what NewRequestMatcherBuilder does, minus its refusal of internal selectors
+	program, err := NewNormalizedRequestRoutingProgram(c07Rules(cs.Req.Rules), cs.Req.Fallback)
+	if err != nil {
+		d.Err = err.Error()
+		return d, nil
+	}
+	b, err := NewRequestMatcherBuilderFromProgram(log, program, n2id)
 	if err != nil {
 		d.Err = err.Error()
 		return d, nil
@@ -194,6 +202,49 @@ func c07Hits(patterns []string, name string) []string {
 	return hits
 }
 
+// c07Split runs the split alone and maps every rule of the four lists back to its position in the written list
+// (the lists hold deep clones: matched by printed form, in order).
+func c07Split(cs *c07Case, res *c07Result) {
+	defer func() {
+		if r := recover(); r != nil {
+			res.SplitErr = fmt.Sprintf("PANIC: %v", r)
+		}
+	}()
+	orig := c07Rules(cs.Req.Rules)
+	program, err := NewNormalizedRequestRoutingProgram(orig, cs.Req.Fallback)
+	if err != nil {
+		res.SplitErr = err.Error()
+		return
+	}
+	used := make([]bool, len(orig))
+	lists := [4][]*config_parser.RoutingRule{program.Rules, program.SubscriptionRules, program.NodeRules, program.SubNodeRules}
+	for li, l := range lists {
+		res.Split[li] = []int{}
+		next := 0
+		for _, r := range l {
+			found := -1
+			for j := next; j < len(orig); j++ {
+				if !used[j] && orig[j].String(false, false, false) == r.String(false, false, false) {
+					found = j
+					break
+				}
+			}
+			if found < 0 {
+				res.Split[li] = append(res.Split[li], -1)
+				continue
+			}
+			used[found] = true
+			next = found + 1
+			res.Split[li] = append(res.Split[li], found)
+		}
+	}
+	for j := range used {
+		if !used[j] {
+			res.SplitErr = fmt.Sprintf("DROPPED: written rule %d is in none of the four lists", j)
+		}
+	}
+}
+
 func c07Run(cs *c07Case) (res c07Result) {
 	defer func() {
 		if r := recover(); r != nil {
@@ -211,6 +262,7 @@ func c07Run(cs *c07Case) (res c07Result) {
 		conf.Upstream = append(conf.Upstream, c07UpstreamLine(i, tag))
 		n2id[tag] = uint8(i)
 	}
+	c07Split(cs, &res)
 	var rawReq *RequestMatcher
 	var rawResp *ResponseMatcher
 	res.ReqDump, rawReq = c07DumpReq(log, cs, n2id)
